@@ -236,6 +236,72 @@ def eqSliceBytes (l r : List (List Int)) : Option Bool := constEqForSlice eqSlic
 /-- `cmp_slice_bytes`: `const_cmp_for!(slice; left, right, cmp_slice_u8)` -/
 def cmpSliceBytes (l r : List (List Int)) : Option Ordering := constCmpForSlice cmpSlice l r
 
+/-! ### the ARGUMENT EXPRESSIONS of the comparison macros
+
+  A macro receives *expressions*, not values. Evaluating an argument expression may have side
+  effects (`next_chunk(&mut rest, 3)`, `{ n += 1; n }`), so successive evaluations may produce
+  different values. std's `==` / `Ord::cmp` / `assert_eq!` evaluate each operand exactly once, the
+  left one first. What an expansion does with `$left` / `$right` is described by an `ArgUse`. -/
+
+/-- one of the two argument expressions of a comparison macro -/
+inductive Arg where
+  | left | right
+deriving DecidableEq, Repr
+
+/-- an argument expression seen from outside: the values its successive evaluations produce
+    (`first`, then those of `later`; afterwards the last one is repeated). A variable, a constant,
+    a pure call is `⟨v, []⟩`. -/
+structure ArgExpr (α : Type) where
+  first : α
+  later : List α
+
+/-- value of the `k`-th (0-based) evaluation -/
+def ArgExpr.eval {α : Type} (e : ArgExpr α) (k : Nat) : α :=
+  (e.first :: e.later).getD (min k e.later.length) e.first
+
+/-- how an expansion uses its two argument expressions: `evals` lists them in the order in which
+    the expansion evaluates them; the comparison reads the value of the `useLeft`-th evaluation of
+    `$left` and of the `useRight`-th evaluation of `$right` (0-based, counted per argument) -/
+structure ArgUse where
+  evals : List Arg
+  useLeft : Nat
+  useRight : Nat
+deriving DecidableEq, Repr
+
+/-- each argument expression evaluated exactly once, `$left` before `$right`, and bound:
+    `match (&$left, &$right) { (left, right) => … }` -/
+def ArgUse.once : ArgUse := ⟨[.left, .right], 0, 0⟩
+
+/-- number of evaluations of one argument expression -/
+def ArgUse.count (u : ArgUse) (a : Arg) : Nat := (u.evals.filter (· = a)).length
+
+/-- the two values the comparison is applied to -/
+def ArgUse.operands {α : Type} (u : ArgUse) (l r : ArgExpr α) : α × α :=
+  (l.eval u.useLeft, r.eval u.useRight)
+
+/-- `const_eq!($left, $right)`: `match coerce_to_cmp!($left, $right) { (left, right) => … }`, and
+    `coerce_to_cmp!` with two arguments is `match (&$left, &$right) { (left, right) => … }` -/
+def constEqArgs : ArgUse := .once
+
+/-- `const_cmp!($left, $right)`: the same `coerce_to_cmp!($left, $right)` -/
+def constCmpArgs : ArgUse := .once
+
+/-- `const_eq_for!`: `slice;` binds `match ($left_slice, $right_slice) { (left_slice, right_slice) => …`,
+    `option;` / `range;` / `range_inclusive;` bind `match (&$left, &$right) { … }`; every later use
+    (`.len()`, `[i]`, `.start`, `.end()`) is of the bound names -/
+def constEqForArgs : ArgUse := .once
+
+/-- `const_cmp_for!`: `slice;` binds `match ($left_slice, $right_slice) { (mut left_slice, mut right_slice) => …`,
+    `option;` binds `match (&$left_opt, &$right_opt) { … }` -/
+def constCmpForArgs : ArgUse := .once
+
+/-- `__cmp_assert_inner!` (`assertc_eq!` / `assertc_ne!`), after the repair e16d62f:
+    `match (&$left, &$right) { (left, right) => if let $is_equal = coerce_to_cmp!(*left).const_eq(right) { panic … } }`
+    — both argument expressions are bound once; the comparison and the panic message use the
+    bound references. (As found, the arm wrote `coerce_to_cmp!($left)`: see
+    `Konst.Legacy.Cmp.legacyCmpAssertArgs`, finding F10.) -/
+def cmpAssertArgs : ArgUse := .once
+
 /-! ### `assertc_eq!` / `assertc_ne!` (`konst/src/macros/assert_cmp_macros.rs`) -/
 
 /-- outcome of an assertion macro -/
